@@ -2,7 +2,7 @@
  * prints the table as one JSON line per class (input of spec/CmpLaws.tla).
  *
  * input (file argv[1]):
- *   class <cls> <kind>            cls: str ustr mbuff url regexp tok objpair array linked_list dlinked_list
+ *   class <cls> <kind>            cls: str ustr mbuff url regexp tok objpair array linked_list dlinked_list mix_str_url_regexp
  *   obj <T|F null> <k bytes> <v bytes>     bytes as [1,2,3]
  *   end
  * Each table row is computed in a forked child (8 MB stack, 5 s alarm): a comp that crashes or does not
@@ -44,6 +44,13 @@ static spif_obj_t build(const uobj_t *u) {
         spif_obj_t o = u8 ? SPIF_OBJ(spif_ustr_new_from_ptr((spif_charptr_t) "")) : SPIF_OBJ(spif_str_new_from_ptr((spif_charptr_t) ""));
         for (i = 0; i < u->vn; i++) { if (u8) spif_ustr_append_char((spif_ustr_t) o, (spif_char_t) u->v[i]); else spif_str_append_char(SPIF_STR(o), (spif_char_t) u->v[i]); }
         return o;
+    }
+    if (!strncmp(cls, "mix", 3)) {
+        /* the same texts as objects of three DIFFERENT comparison-compatible classes (url and regexp are subclasses of str and
+         * compare by their text): slack selects the class; comp is dispatched on the class of the first non-NULL argument */
+        return u->slack == 1 ? SPIF_OBJ(spif_url_new_from_ptr((spif_charptr_t) u->v))
+             : u->slack == 2 ? SPIF_OBJ(spif_regexp_new_from_ptr((spif_charptr_t) u->v))
+             : SPIF_OBJ(spif_str_new_from_ptr((spif_charptr_t) u->v));
     }
     if (!strcmp(cls, "mbuff")) return SPIF_OBJ(spif_mbuff_new_from_buff((spif_byteptr_t) u->v, (spif_memidx_t) u->vn, (spif_memidx_t) (u->vn + u->slack)));
     if (!strcmp(cls, "url")) return SPIF_OBJ(spif_url_new_from_ptr((spif_charptr_t) u->v));
@@ -106,7 +113,7 @@ static void emit_class(void) {
         }
     }
     printf("{\"cls\":\"%s\",\"kind\":\"%s\",\"objs\":[", cls, kind);
-    for (i = 0; i < NU; i++) printf("%s{\"null\":%s,\"k\":%s,\"v\":%s}", i ? "," : "", U[i].null ? "true" : "false", U[i].ktok, U[i].vtok);
+    for (i = 0; i < NU; i++) printf("%s{\"null\":%s,\"k\":%s,\"v\":%s,\"sel\":%d}", i ? "," : "", U[i].null ? "true" : "false", U[i].ktok, U[i].vtok, U[i].slack);
     printf("],\"tbl\":[");
     for (i = 0; i < NU; i++) {
         printf("%s[", i ? "," : "");
